@@ -790,6 +790,9 @@ def _list_of(eng, st, v):
     while isinstance(v, RefV) and n < 6:
         v = eng.resolve(st, load(Loc(v.cell, v.path)))
         n += 1
+    if isinstance(v, AggV) and v.kind == "array" and v.fields and all(isinstance(k, int) for k in v.fields):
+        # a fixed-size array of non-byte elements (e.g. a constant table): viewed as a list
+        return fdai.ListV([Cell(v.fields[i], "elem%d" % i) for i in sorted(v.fields)])
     return v if isinstance(v, fdai.ListV) else None
 
 
